@@ -22,11 +22,19 @@ def expand_variants(check):
     if not names:
         return check
     table = list(VARIANTS) + ([UNSIGNED_CHAR] if check.get('variant_unsigned_char') else [])
+    # variant_tiers = {tag: tiers}: expensive checks run some variants in one tier only; a tag mapped to () is left out
+    vt = check.get('variant_tiers', {})
+    table = [(tag, cc, flags, tuple(vt.get(tag, tiers))) for tag, cc, flags, tiers in table]
+    # an entry of variants is a part name, or (part name, [tags]) to give that part only some of the variants
+    only = dict((n[0], n[1]) for n in names if isinstance(n, tuple))
+    names = [n[0] if isinstance(n, tuple) else n for n in names]
     out = []
     for p in check['parts']:
         if p['name'] not in names:
             continue
         for tag, cc, flags, tiers in table:
+            if p['name'] in only and tag not in only[p['name']]:
+                continue
             q = dict(p)
             q['name'] = p['name'] + '_' + ''.join(ch for ch in tag if ch.isalnum())
             q['variant'] = tag
@@ -36,9 +44,8 @@ def expand_variants(check):
             if q['tiers']:
                 out.append(q)
     check['parts'] = check['parts'] + out
-    q = ', '.join(t[0] for t in table if 'quick' in t[3])
-    check['bounds'] = dict((k, v + '; the whole enumeration repeated on other builds of the librfn sources, counted separately: ' + q +
-                            (', clang -O2' if k == 'thorough' else '')) for k, v in check['bounds'].items())
+    check['bounds'] = dict((k, v + '; the whole enumeration repeated on other builds of the librfn sources, counted separately: ' +
+                            ', '.join(t[0] for t in table if k in t[3])) for k, v in check['bounds'].items())
     return check
 
 
